@@ -21,7 +21,8 @@ func init() {
 		Explanation: "C14.a TABLE: the function names the rewriter's Visit compares with strings.EqualFold cover the reference set {random, randomblob, date, time, datetime, julianday, unixepoch, strftime, timediff}. " +
 			"C14.b DOM under assumptions: for each date/time function and each argument count at which SQLite substitutes 'now' (0 for date/time/datetime/julianday/unixepoch, 1 for strftime), every path of Visit consistent with (node is a Call, RewriteTime, that name, that arity) installs a value into Call.Args and marks the statement modified; with an explicit time-value every such path marks it modified and, when isNow holds, replaces that argument. " +
 			"C14.c LANG: the lower-cased substring tests of ContainsTime/ContainsRandom (string constants extracted from the source) must accept every string of SQLite's call syntax `name ws* (` for each covered function (white space or comments between name and parenthesis); decided by automata inclusion, counterexamples are shortest witness strings. " +
-			"C14.d PAIR: the ORDER BY scope flag set in Visit for an OrderingTerm is cleared in VisitEnd for the same node type; Process replaces the statement text when and only when the rewriter reports a modification.",
+			"C14.d PAIR: the ORDER BY scope flag set in Visit for an OrderingTerm is cleared in VisitEnd for the same node type; Process replaces the statement text when and only when the rewriter reports a modification. " +
+			"C14.e CONST: the generator stored in Rewriter.randFn is non-negative by construction (a reviewed math/rand generator, or a function whose returned expression is provably ≥ 0): the replacement is rendered as a bare number literal, and a negative one directly after a unary minus would render as the comment token `--`.",
 		NotCovered: []string{"meaning preservation of the re-serialised statement (parser round-trip)", "text after the first statement of a multi-statement string", "non-deterministic functions outside the reference set (e.g. user extensions, CURRENT_TIMESTAMP keywords)"},
 		Run:        runC14,
 	})
@@ -370,4 +371,5 @@ func c14lang(c *core.Ctx) {
 	}
 	c.Count("pre-filter × function cells", cells)
 	c.Min("pre-filter × function cells", 9)
+	c14Generator(c)
 }
